@@ -4,14 +4,16 @@ import contracts.harness_selection  # noqa
 import contracts.harness_chunk  # noqa
 import contracts.selection as SEL
 import contracts.chunk as CH
+import contracts.standins_context as BX
 
-PROVED = [SEL.apply_time_range, SEL.apply_selection_range, SEL.apply_selection_none, CH.chunk_split]
+PROVED = [SEL.apply_time_range, SEL.apply_selection_range, SEL.apply_selection_none, SEL.loader_range, CH.chunk_split]
 
 PROPERTY = Property(
     "C10", "proof",
     contracts=PROVED,
     lemmas=[SEL.PRUNED],
-    standins=[StandIn("replay-scope:" + c.qualname, c, c.harness, budget={"quick": 2500, "thorough": 150000})
+    standins=[StandIn("seconds_range -> absolute ns", BX.to_absolute_time_range, BX.to_absolute_time_range.harness)]
+    + [StandIn("replay-scope:" + c.qualname, c, c.harness, budget={"quick": 2500, "thorough": 150000})
               for c in PROVED if c.harness is not None],
     trusted=["pyvc VC generator and value model", "z3 5.1.0 / cvc5 1.4.0",
              "library model of numpy boolean-mask indexing (exactly the rows with a true mask, in order)"],
